@@ -153,7 +153,10 @@ func weekEnd() (time.Weekday, error) {
 			debugPrintf("%v: could not create telemetry.LocalDir %s", err, telemetry.Default.LocalDir())
 			return 0, err
 		}
-		if err = os.WriteFile(weekends, []byte(day), 0666); err != nil {
+		// Create the file atomically and exclusively: concurrent processes
+		// must all end up reading the same day (it is part of the counter
+		// file header), and none may observe a created but still empty file.
+		if err := writeWeekends(weekends, day); err != nil {
 			return 0, err
 		}
 	}
@@ -176,6 +179,30 @@ func weekEnd() (time.Weekday, error) {
 		weekend += 7
 	}
 	return weekend, nil
+}
+
+// writeWeekends creates the weekends file with the given content unless it
+// already exists. The content is written to a temporary file that is then
+// linked into place, so that the file is never visible half-written and the
+// first creator wins.
+func writeWeekends(weekends, day string) error {
+	tmp, err := os.CreateTemp(filepath.Dir(weekends), "weekends.tmp*")
+	if err != nil {
+		return err
+	}
+	defer os.Remove(tmp.Name())
+	_, err = tmp.Write([]byte(day))
+	if cerr := tmp.Close(); err == nil {
+		err = cerr
+	}
+	if err != nil {
+		return err
+	}
+	if err := os.Link(tmp.Name(), weekends); err != nil && !os.IsExist(err) {
+		// No hard links here: fall back to an atomic (but not exclusive) rename.
+		return os.Rename(tmp.Name(), weekends)
+	}
+	return nil
 }
 
 // rotate checks to see whether the file f needs to be rotated,
